@@ -36,6 +36,8 @@ type metaBadProps struct{ Properties map[string]int }
 type metaAnyProps struct{ Properties map[string]any }
 type metaNotMap struct{ Properties string }
 type metaNilProps struct{ Properties map[string]string }
+type metaInner struct{ Properties map[string]string }
+type namedProps map[string]string
 
 func build(v VS) any {
 	pi := func(bits int) int64 { n, _ := strconv.ParseInt(v.V, 10, bits); return n }
@@ -201,6 +203,22 @@ func build(v VS) any {
 			return metaNotMap{Properties: "x"}
 		case "empty":
 			return struct{}{}
+		case "badprops":
+			return metaBadProps{Properties: map[string]int{"a": 1}}
+		case "anyprops":
+			m := map[string]any{}
+			for k, v := range props {
+				m[k] = v
+			}
+			return metaAnyProps{Properties: m}
+		case "embedded":
+			return struct{ metaBase }{metaBase{Properties: props}}
+		case "embeddedunexp":
+			return struct{ metaInner }{metaInner{Properties: props}}
+		case "embeddedptr":
+			return struct{ *metaBase }{}
+		case "namedmap":
+			return struct{ Properties namedProps }{namedProps(props)}
 		}
 		return metaBase{}
 	}
@@ -519,7 +537,7 @@ func genMeta(r *runner) {
 	for _, s := range []string{`{"str":"a","dur":"5s"}`, `{"str":1}`, `[1]`, `{`, ``, `null`, `{"str":{"a":1}}`, `{"STR":"a","str":"b"}`} {
 		r.do(mk("metadata-decodemetadata", "in", js(sv(s)), "target", "meta"))
 	}
-	for _, st := range []string{"base", "baseptr", "nilprops", "notmap", "empty"} {
+	for _, st := range []string{"base", "baseptr", "nilprops", "notmap", "empty", "badprops", "anyprops", "embedded", "embeddedunexp", "embeddedptr", "namedmap"} {
 		v := mapOf("st", metaKeys, 3)
 		v.V = st
 		r.do(mk("metadata-decodemetadata", "in", js(v), "target", "meta"))
